@@ -106,13 +106,18 @@ class Player:
         while self.i < len(self.steps) and not self.bad:
             st = self.steps[self.i]
             a = st["act"]
-            if a == "Enter":
+            if a == "Create":
+                kw = {self.keymap[j]: self.pal[self.keymap[j]][st["vals"][j]] for j in range(len(self.keymap)) if st["named"][j]}
+                self.pending = fl.settings.context(**kw)       # created now, entered by a later step
+                self.check(self.i)
+                self.i += 1
+            elif a in ("Enter", "EnterCreated"):
                 idx = self.i
                 self.i += 1
                 kw = {self.keymap[j]: self.pal[self.keymap[j]][st["vals"][j]] for j in range(len(self.keymap)) if st["named"][j]}
                 r = None
                 try:
-                    with fl.settings.context(**kw):
+                    with (self.pending if a == "EnterCreated" else fl.settings.context(**kw)):
                         self.check(idx)
                         r = self.level(depth + 1)
                     if r == "exit":
@@ -164,19 +169,24 @@ def run(ctx: core.Ctx):
     fl = core.import_fuzzylite()
     q = ctx.quick
     base = ("SPECIFICATION Spec\nCONSTANTS Keys <- KeysDef\n  NK = {nk}\n  Vals = {{1, 2}}\n  MaxDepth = {d}\n  MaxSteps = {m}\n"
-            "  Emit = {e}\n  RestoreAll = {ra}\n")
+            "  Emit = {e}\n  RestoreAll = {ra}\n  Deferred = \"{df}\"\n")
     mc_props = "INVARIANT TypeOK\nPROPERTY PropExitRestores\nPROPERTY PropEnterVisible\nVIEW View\nCHECK_DEADLOCK FALSE\n"
-    r = ctx.tlc("MC_Settings", write_cfg("MC_Settings", base.format(nk=2, d=4, m=7 if q else 8, e="FALSE", ra="FALSE") + mc_props), workers=16)
+    r = ctx.tlc("MC_Settings", write_cfg("MC_Settings", base.format(nk=2, d=4, m=6 if q else 8, e="FALSE", ra="FALSE", df="both") + mc_props), workers=16)
     ctx.expect_holds(r, "MC_Settings")
-    ctx.extra["model_check"] = {"keys": 2, "values": 3, "depth": 4, "steps": 7 if q else 8, "distinct": r.distinct}
-    ctx.expect_canary(ctx.tlc("MC_Settings", write_cfg("MC_Settings_canary", base.format(nk=2, d=3, m=5, e="FALSE", ra="TRUE")
+    ctx.extra["model_check"] = {"keys": 2, "values": 3, "depth": 4, "steps": 6 if q else 8, "distinct": r.distinct}
+    ctx.expect_canary(ctx.tlc("MC_Settings", write_cfg("MC_Settings_canary", base.format(nk=2, d=3, m=5, e="FALSE", ra="TRUE", df="no")
                                                        + "PROPERTY PropExitRestores\nVIEW View\nCHECK_DEADLOCK FALSE\n"), workers=4), "RestoreAll")
-    g = ctx.tlc("MC_Settings", write_cfg("Gen_Settings", base.format(nk=2, d=4, m=4 if q else 5, e="TRUE", ra="FALSE")
+    g = ctx.tlc("MC_Settings", write_cfg("Gen_Settings", base.format(nk=2, d=4, m=4 if q else 5, e="TRUE", ra="FALSE", df="no")
                                          + "INVARIANT EmitInv\nCHECK_DEADLOCK FALSE\n"), workers=16, timeout=3000)
     behs = [(b, 2) for b in g.emitted]
+    # context objects created first and entered by a later step (after an assignment, inside another context, ...)
+    g2 = ctx.tlc("MC_Settings", write_cfg("Gen_Settings_deferred", base.format(nk=2, d=3, m=4 if q else 5, e="TRUE", ra="FALSE", df="only")
+                                          + "INVARIANT EmitInv\nCHECK_DEADLOCK FALSE\n"), workers=16, timeout=3000)
+    behs += [(b, 2) for b in g2.emitted if any(s["act"] == "EnterCreated" for s in b["steps"])]
+    ctx.extra["behaviours_deferred_entry"] = sum(1 for b, _ in behs if any(s["act"] == "EnterCreated" for s in b["steps"]))
     n_exh = len(behs)
     if not q:
-        s = ctx.tlc("MC_Settings", write_cfg("Sim_Settings", base.format(nk=7, d=4, m=10, e="TRUE", ra="FALSE")
+        s = ctx.tlc("MC_Settings", write_cfg("Sim_Settings", base.format(nk=7, d=4, m=10, e="TRUE", ra="FALSE", df="both")
                                              + "INVARIANT EmitInv\nPROPERTY PropExitRestores\nCHECK_DEADLOCK FALSE\n"),
                     workers=1, simulate="num=3000", depth=12, seed=ctx.seed % 100000, timeout=3000)
         behs += [(b, 7) for b in s.emitted]
